@@ -915,7 +915,9 @@ def run_journal(cfg, tape, want_trace=False):
         if fs.bypass:
             harness = f'unmodelled file-system mutation: {fs.bypass[:3]}'
     journal = fs.journal
-    h.update(repr([(o[0], o[1], o[2] if len(o) > 2 and o[0] != 'write' else None) for o in journal]).encode())
+    h.update(repr([(o[0], o[1], o[2] if len(o) > 2 and o[0] not in ('write', 'creat.w', 'creat.x', 'open.a',
+                                                                      'open.r+', 'creat') else None)
+                   for o in journal]).encode())
     rootb = root.encode()
     for o in journal:
         if o[0] == 'write':
